@@ -231,7 +231,7 @@ def check(payload):
             return None, text
         got, e1, tree = parse_shape(text, std, ic)
         if got is None:
-            key = classify_layout(text) or "layout-rejected"
+            key = layout.known_rejection_key(text) or "layout-rejected"
             return viol(key, "(%s, layout %d, ignore_comments=%s) valid layout rejected: %s" % (std, payload["li"], ic, e1)), text
         if got != r0:
             d = first_diff(r0, got)
